@@ -16,7 +16,7 @@ import (
 func init() {
 	register(&propDef{
 		id:      "C04",
-		explain: "Structural necessary conditions of 'a client call returns the response to its own request': (R1) in the transport's RoundTrip a connection obtained from AcquireConn is, on every path, closed, released to the pool, or handed to the stream-close closure exactly once; (R2) it is released to the pool only on paths where the response was read without error; (R3) inside the stream-close closure the connection is pooled only under a condition that depends on the body having been read to its end (and on the close decision and the caller's error); (R4) in the pipelining client a work item is given back to the pool by the caller only when it was never queued or its completion was received - never after a timeout while the connection goroutines still hold it; the pipeline writer hands every request it wrote either to the reader queue or completes it with an error and stops; (R5) response-header fields that closure consults live and that the transport did not also capture when it built the closure (recomputed on every run; none on today's tree, where the stream remembers its declared length and the close flag is captured) are never reset before the body stream of the same Response is closed, in any function of the module; (R6) the connection's buffered reader is returned to its pool by RoundTrip itself exactly on the paths on which no body stream reading through it is handed to the caller (there the stream-close callback returns it); (R7) every client function that reads a response off a connection for a request has consulted the request's IsHead() on every path to that read and stores SkipBody = true under it - a HEAD response announces a length but carries no body, and reading one would take the next response's bytes for it. (R8) where the client itself raises Response.SkipBody on the caller's Response (HEAD exchanges), the caller's value is stored back on every path before the function returns or signals completion, so the flag cannot stick to a reused Response object and leave a later GET body unread on the connection. (R9) in the pipeline connection worker the pending-response queue is drained only on paths that have received the end of both the writer and the reader goroutine (select cases and plain receives on the two completion channels), so no item can enter the queue after the drain and survive into the re-dialled connection. (R10) the pipeline worker does not return, once both its goroutines have stopped, before it found the pending queue empty; (R12) the pipeline reader reads each response with SkipBody computed from the request's method and StreamBody off - the caller's flags cannot leave a body in the shared reader; (R11) the close-or-release decision at the end of RoundTrip depends on the caller's Response.SkipBody: a body the caller asked not to read is still on the connection. Not decided: interleavings, slow or partial servers, byte-level framing of responses (C03's mirror).",
+		explain: "Structural necessary conditions of 'a client call returns the response to its own request': (R1) in the transport's RoundTrip a connection obtained from AcquireConn is, on every path, closed, released to the pool, or handed to the stream-close closure exactly once; (R2) it is released to the pool only on paths where the response was read without error; (R3) inside the stream-close closure the connection is pooled only under a condition that depends on the body having been read to its end (and on the close decision and the caller's error); (R4) in the pipelining client a work item is given back to the pool by the caller only when it was never queued or its completion was received - never after a timeout while the connection goroutines still hold it; the pipeline writer hands every request it wrote either to the reader queue or completes it with an error and stops; (R5) response-header fields that closure consults live and that the transport did not also capture when it built the closure (recomputed on every run; none on today's tree, where the stream remembers its declared length and the close flag is captured) are never reset before the body stream of the same Response is closed, in any function of the module; (R6) the connection's buffered reader is returned to its pool by RoundTrip itself exactly on the paths on which no body stream reading through it is handed to the caller (there the stream-close callback returns it); (R7) every client function that reads a response off a connection for a request has consulted the request's IsHead() on every path to that read and stores SkipBody = true under it - a HEAD response announces a length but carries no body, and reading one would take the next response's bytes for it. (R8) where the client itself raises Response.SkipBody on the caller's Response (HEAD exchanges), the caller's value is stored back on every path before the function returns or signals completion, so the flag cannot stick to a reused Response object and leave a later GET body unread on the connection. (R9) in the pipeline connection worker the pending-response queue is drained only on paths that have received the end of both the writer and the reader goroutine (select cases and plain receives on the two completion channels), so no item can enter the queue after the drain and survive into the re-dialled connection. (R10) the pipeline worker does not return, once both its goroutines have stopped, before it found the pending queue empty; (R13) in requestStream.Read an error of the chunk-size parser is returned only after it was compared with io.EOF - a chunked body cut off at a chunk boundary is not a complete one; (R12) the pipeline reader reads each response with SkipBody computed from the request's method and StreamBody off - the caller's flags cannot leave a body in the shared reader; (R11) the close-or-release decision at the end of RoundTrip depends on the caller's Response.SkipBody: a body the caller asked not to read is still on the connection. Not decided: interleavings, slow or partial servers, byte-level framing of responses (C03's mirror).",
 		run:     runC04,
 	})
 	register(&propDef{
@@ -203,6 +203,7 @@ func runC04(p *Prog, r *Report) {
 	pendingDrainedAfterBothStopped(p, r)
 	skippedBodyClosesConn(p, r)
 	pipelinedBodyLeavesTheReader(p, r)
+	chunkBoundaryEOFIsAnError(p, r)
 	// R4a: pipelineWork typestate in the callers
 	runPipelineCaller(p, r, "C04")
 	// R4b: the writer
@@ -2094,4 +2095,67 @@ func pipelinedBodyLeavesTheReader(p *Prog, r *Report) {
 		}
 	}
 	r.Check("R12", "pipeline reader: no store of the caller's SkipBody reaches the read", bad == 0, p.Pos(read.Pos()), fmt.Sprintf("%d stores of another value into resp.SkipBody reach the read without the method store in between", bad))
+}
+
+// chunkBoundaryEOFIsAnError (C04.R13): a chunked body ends with a chunk of size zero. When the connection ends where
+// the next chunk-size line should begin, the stream reader must not hand the caller a clean io.EOF - a response cut
+// off at a chunk boundary would pass for a complete one. In requestStream.Read every return on the failure branch of
+// the chunk-size parser is reached only through a comparison of the error with io.EOF.
+func chunkBoundaryEOFIsAnError(p *Prog, r *Report) {
+	fn := p.Func("(*requestStream).Read")
+	pcs := p.Func("parseChunkSize")
+	if fn == nil || pcs == nil {
+		r.Undecided("R13", "(*requestStream).Read / parseChunkSize", "not found")
+		return
+	}
+	n := 0
+	allCalls(fn, func(b *ssa.BasicBlock, c ssa.CallInstruction) {
+		cv, ok := c.(*ssa.Call)
+		if !ok || cv.Call.StaticCallee() != pcs {
+			return
+		}
+		var failed *ssa.BasicBlock
+		for _, ref := range *cv.Referrers() {
+			ex, ok := ref.(*ssa.Extract)
+			if !ok || ex.Index != 1 {
+				continue
+			}
+			for _, r2 := range *ex.Referrers() {
+				bo, ok := r2.(*ssa.BinOp)
+				if !ok || !(bo.Op == token.NEQ || bo.Op == token.EQL) || !(isNilConst(bo.X) || isNilConst(bo.Y)) {
+					continue
+				}
+				for _, r3 := range *bo.Referrers() {
+					if iff, ok := r3.(*ssa.If); ok {
+						failed = iff.Block().Succs[0]
+						if bo.Op == token.EQL {
+							failed = iff.Block().Succs[1]
+						}
+					}
+				}
+			}
+		}
+		if failed == nil {
+			return
+		}
+		n++
+		eofTest := func(i ssa.Instruction) bool {
+			iff, ok := i.(*ssa.If)
+			if !ok {
+				return false
+			}
+			bo, ok := iff.Cond.(*ssa.BinOp)
+			return ok && (globalOf(bo.X) == "EOF" || globalOf(bo.Y) == "EOF")
+		}
+		bad := isReturn(failed.Instrs[0])
+		var path []*ssa.BasicBlock
+		if !bad && !eofTest(failed.Instrs[0]) {
+			var hit ssa.Instruction
+			hit, path = reachAvoiding(fn, failed.Instrs[0], isReturn, eofTest, nil)
+			bad = hit != nil
+		}
+		r.Check("R13", "requestStream.Read: an error of the chunk-size parser is returned only after it was compared with io.EOF", !bad, p.Pos(c.Pos()),
+			"the failure of parseChunkSize is returned as it is: when the connection ends exactly at a chunk boundary the caller of a streamed chunked response reads a clean io.EOF - a body cut off by the server passes for a complete one", blocksString(p, path)...)
+	})
+	r.Floor("R13", "chunk-size parses in requestStream.Read", n, 1)
 }
